@@ -204,6 +204,10 @@ func funcSplitVec(chunk []KVPair, args []Expression, ctx *ExecuteCtx) ([]any, er
 func funcJoinVec(chunk []KVPair, args []Expression, ctx *ExecuteCtx) ([]any, error) {
 	ret := make([]any, len(chunk))
 	for i := 0; i < len(chunk); i++ {
+		if ctx != nil {
+			// Field results cached for the previous row are stale
+			ctx.ClearFieldCache()
+		}
 		row, err := funcJoin(chunk[i], args, ctx)
 		if err != nil {
 			return nil, err
@@ -270,6 +274,10 @@ func funcL2DistanceVec(chunk []KVPair, args []Expression, ctx *ExecuteCtx) ([]an
 func funcFloatListVec(chunk []KVPair, args []Expression, ctx *ExecuteCtx) ([]any, error) {
 	ret := make([]any, len(chunk))
 	for i := 0; i < len(chunk); i++ {
+		if ctx != nil {
+			// Field results cached for the previous row are stale
+			ctx.ClearFieldCache()
+		}
 		row, err := funcFloatList(chunk[i], args, ctx)
 		if err != nil {
 			return nil, err
@@ -282,6 +290,10 @@ func funcFloatListVec(chunk []KVPair, args []Expression, ctx *ExecuteCtx) ([]any
 func funcIntListVec(chunk []KVPair, args []Expression, ctx *ExecuteCtx) ([]any, error) {
 	ret := make([]any, len(chunk))
 	for i := 0; i < len(chunk); i++ {
+		if ctx != nil {
+			// Field results cached for the previous row are stale
+			ctx.ClearFieldCache()
+		}
 		row, err := funcIntList(chunk[i], args, ctx)
 		if err != nil {
 			return nil, err
